@@ -279,6 +279,9 @@ class PiecewiseConstantBirthDeath(Distribution):
             ).cumsum(-1)
         else:
             times = self.times
+            if self.relative_times:
+                # fractions of the time between the origin and the present
+                times = times * origin
             if self.origin is not None:
                 times = torch.cat((times, origin), -1)
 
@@ -302,9 +305,6 @@ class PiecewiseConstantBirthDeath(Distribution):
             rho = self.rho
         if rho.shape != self.lambda_.shape:
             rho = torch.broadcast_to(rho, self.lambda_.shape)
-
-        if self.relative_times and self.times is not None:
-            times = times * self.origin
 
         p, A, B = self.log_p(times[..., 1:], times[..., :-1], rho)
 
